@@ -169,6 +169,7 @@ func c18Machine(seed uint64, budget int, lg *caseLog) c18Report {
 		var clone *world.Node
 		var cdir string
 		sinceClone := 0
+		hangsSeen := 0
 		for _, mu := range muts {
 			if clone == nil || sinceClone >= 20 || idx == 0 {
 				if clone != nil {
@@ -202,6 +203,10 @@ func c18Machine(seed uint64, budget int, lg *caseLog) c18Report {
 			if hung {
 				report("C18/processing-never-ends:Machine.ProcessOperation", fmt.Sprintf("Machine.ProcessOperation does not return for %s of a %s operation: its goroutine is parked on a mutex for good (after the earlier operations fed to this machine)", mu.Label, rc.Op.Type), map[string]interface{}{"step": idx, "operation_type": string(rc.Op.Type), "mutation": mu.Label, "operations_fed_to_this_machine_before": sinceClone - 1, "stack": trunc(hstack, 1800)})
 				clone = nil // the machine (and its database handle) cannot be used or closed any more
+				hangsSeen++
+				if hangsSeen >= 3 {
+					break // reported; every further hang costs seconds of observation
+				}
 				continue
 			}
 			cls := mu.Label
